@@ -63,6 +63,7 @@ HYDRIDE = {3: "LiH", 4: "BeH2", 5: "BH3", 6: "CH4", 7: "NH3", 8: "H2O", 9: "HF",
            14: "SiH4", 15: "PH3", 16: "H2S", 17: "HCl"}  # fmt: skip
 TORE = {1: 1, 3: 1, 4: 2, 5: 3, 6: 4, 7: 5, 8: 6, 9: 7, 11: 1, 12: 2, 13: 3, 14: 4, 15: 5, 16: 6, 17: 7}
 R_ALL = [0.5, 0.6, 0.8, 1.0, 2.0, 5.0, 10.0, 30.0]
+STRETCHED_CAP = 150
 
 
 # ------------------------------------------------------------------ request -> execution
@@ -109,6 +110,7 @@ def execute(req):
     from seqm.ElectronicStructure import Electronic_Structure
     from seqm.Molecule import Molecule
     from seqm.seqm_functions.constants import Constants
+    import seqm.seqm_functions.scf_loop as SL
 
     if req.get("md") is not None:
         return execute_md(req)
@@ -134,9 +136,14 @@ def execute(req):
             molecule.active_state = req["active_state"]
         out["stage"] = "call"
         h = SR.CallHorizon(limit=20 * 1002, limits={"SP2": 3000})
-        with contextlib.redirect_stdout(io.StringIO()):
-            with h:
-                es(molecule)
+        old_cap = SL.MAX_ITER
+        SL.MAX_ITER = int(req.get("cap", old_cap))
+        try:
+            with contextlib.redirect_stdout(io.StringIO()):
+                with h:
+                    es(molecule)
+        finally:
+            SL.MAX_ITER = old_cap
         out["stage"] = "done"
     except SR.IterationHorizon as e:
         out.update(status="horizon", msg=str(e))
@@ -346,7 +353,11 @@ def positive_lattice(tier, seed):
                 a, b = max(za, zb), min(za, zb)
                 reqs.append(_req("pair_eq", "accept", meth, [{"pair": [a, b], "scale": 1.0}], seed, fault="", za=a, zb=b, R=round(M.RCOV[a] + M.RCOV[b], 3)))
                 for R in Rs:
-                    reqs.append(_req("pair", "finite", meth, [{"pair": [a, b], "R": R}], seed, fault="", za=a, zb=b, R=R))
+                    # restricted SCF of a dissociated bond does not converge with any solver (measured: 72-76 of 77 AM1 pairs
+                    # at 10 and 30 A are flagged after 1000 passes, 4.5 s each); the flag is what is observed there, so the
+                    # harness answers a smaller iteration cap for the stretched geometries
+                    kw = {"cap": STRETCHED_CAP} if R >= 5.0 else {}
+                    reqs.append(_req("pair", "finite", meth, [{"pair": [a, b], "R": R}], seed, fault="", za=a, zb=b, R=R, **kw))
         for z in el:
             if z == 1:
                 continue
